@@ -164,6 +164,10 @@ func init() {
 			}
 			return nil
 		},
+		rt + "YieldOnUnlock": func(fr *frame, a []value) value {
+			fr.i.sch.yieldOnUnlock = a[0].(bool)
+			return nil
+		},
 		rt + "PreemptionBound": func(fr *frame, a []value) value {
 			fr.i.sch.preemptBound = a[0].(int)
 			return nil
